@@ -57,7 +57,13 @@ func (g *ogen) intExpr(d int) *onode {
 		}
 		return xs
 	}
-	switch g.r.Intn(27) {
+	switch g.r.Intn(30) {
+	case 27:
+		// a[low:high] / a[low:high:max]: the bounds are evaluated once each, low first
+		return &onode{kind: "slicebounds", k: int64(2 + g.r.Intn(2)), kids: ints(4)}
+	case 28, 29:
+		// the container and the index of an index expression, also inside the comma-ok form
+		return &onode{kind: "indexops", k: int64(g.r.Intn(2)), kids: ints(3)}
 	case 23, 24, 25:
 		// any strict binary operator: left operand, then right operand (its own value is made irrelevant by gv0)
 		ops := []string{"-", "*", "/", "&", "|", "<<", ">>", "<", "<=", ">", ">=", "==", "!=", "in"}
@@ -187,6 +193,18 @@ func (n *onode) src() string {
 		return "gv0(" + n.kids[0].src() + " " + n.fn + " " + r + ")"
 	case "addrarg":
 		return "gv0(id(&[" + n.kids[0].src() + ", 7][0 * " + n.kids[1].src() + "]))"
+	case "slicebounds":
+		b := "[" + n.kids[0].src() + ", 0, 0, 0][0 * " + n.kids[1].src() + ":0 * " + n.kids[2].src() + " + 1"
+		if n.k == 3 {
+			b += ":0 * " + n.kids[3].src() + " + 2"
+		}
+		return "gv0(" + b + "])"
+	case "indexops":
+		if n.k == 1 {
+			// the comma-ok statement form, as an expression through a function literal
+			return "gv0(func() {\nq1, q2 = [" + n.kids[0].src() + ", " + n.kids[1].src() + "][0 * " + n.kids[2].src() + "]\nreturn q1\n}())"
+		}
+		return "gv0([" + n.kids[0].src() + ", " + n.kids[1].src() + "][0 * " + n.kids[2].src() + "])"
 	case "failconv":
 		return "typed2(" + n.kids[0].src() + ", \"notanint\")"
 	case "vtyped":
@@ -319,8 +337,17 @@ func (n *onode) ref(tr *[]string) (interface{}, bool) {
 			return nil, true
 		}
 		return int64(len(vs)), false
-	case "binop", "addrarg":
+	case "binop", "addrarg", "indexops":
 		if _, bad := evalAll(n.kids); bad {
+			return nil, true
+		}
+		return int64(1), false
+	case "slicebounds":
+		ks := n.kids[:3]
+		if n.k == 3 {
+			ks = n.kids[:4]
+		}
+		if _, bad := evalAll(ks); bad {
 			return nil, true
 		}
 		return int64(1), false
